@@ -62,7 +62,7 @@ HCommentN(af)       == [k |-> "hcomment", after |-> af]
 GCommentN           == [k |-> "gcomment"]                                           \* // line comment
 MCommentN(af)       == [k |-> "mcomment", after |-> af]                             \* /* block comment */, may sit inside a line
 GoCodeMLN           == [k |-> "gocodeml"]                                           \* {{ ... }} spanning several lines (raw string inside)
-RawN(nm, af)        == [k |-> "raw", name |-> nm, after |-> af]                    \* <style>/<script> constant content; "scriptgo": <script> interpolating E1 twice with {{ }}
+RawN(nm, af)        == [k |-> "raw", name |-> nm, after |-> af]                    \* <style>/<script> constant content; "scriptgo": <script> interpolating E1 twice with {{ }}; "scriptcls": <script class={ K1, K2 } src="x.js"></script> (a class list on a script element)
 DoctypeN            == [k |-> "doctype"]
 
 Trailer(nd) == nd.k \in {"text", "expr", "void", "el", "gocodei"}
@@ -113,7 +113,7 @@ Leaves ==
     {SlotN(af) : af \in Ws} \cup
     {HCommentN(af) : af \in Ws} \cup
     {MCommentN(af) : af \in Ws} \cup
-    {RawN(nm, af) : nm \in {"style", "script", "scriptgo"}, af \in Ws} \cup
+    {RawN(nm, af) : nm \in {"style", "script", "scriptgo", "scriptcls"}, af \in Ws} \cup
     {GoCodeIN(tr) : tr \in Ws} \cup
     {GoCodeN, GoCodeMLN, GCommentN, DoctypeN}
 
@@ -363,7 +363,8 @@ DenNode(nd, prev, env) ==
       [] nd.k = "mcomment" -> [toks |-> <<>>, evs |-> <<>>, prev |-> POpaque]
       [] nd.k = "hcomment" -> [toks |-> << Tok("comment", "c", Gap(prev, nd)) >>, evs |-> <<>>, prev |-> PNode(nd)]
       [] nd.k = "raw" -> [toks |-> << Tok("raw", nd.name, Gap(prev, nd)) >>,
-                          evs |-> IF nd.name = "scriptgo" THEN << "E1", "E1" >> ELSE <<>>, prev |-> PNode(nd)]
+                          evs |-> IF nd.name = "scriptgo" THEN << "E1", "E1" >>
+                                  ELSE IF nd.name = "scriptcls" THEN << "K1", "K2" >> ELSE <<>>, prev |-> PNode(nd)]
       [] nd.k = "doctype" -> [toks |-> << Tok("doctype", "html", "may") >>, evs |-> <<>>, prev |-> POpaque]
 
 \* A definition is rendered once per rendering: every later "def" token of the same name is dropped, and the token
